@@ -63,7 +63,7 @@ theorem trace_getElem? (U : Nat → Bytes) (s : State) (ops : List Op) (i : Nat)
 theorem exec_take_succ (U : Nat → Bytes) (s : State) (ops : List Op) (i : Nat) (op : Op) (h : ops[i]? = some op) :
     exec U s (ops.take (i + 1)) = (step U (exec U s (ops.take i)) op).1 := by
   rw [List.take_add_one, h]
-  simp [exec_append, exec]
+  simp [exec]
 
 /-! ### results are issued; fresh results were not -/
 
@@ -210,7 +210,7 @@ theorem getLabel_peek (U : Nat → Bytes) (s : State) (p : ProvRef) (n : Node)
       · rename_i idx hk
         simp [peek, hp, hk]
       · rename_i hk
-        simp [peek, List.getElem?_set, lt_length_of_getElem? hp, assoc_cons_self]
+        simp [peek, lt_length_of_getElem? hp, assoc_cons_self]
   | uuid i =>
     simp only [getLabel] at h ⊢
     split
@@ -220,7 +220,7 @@ theorem getLabel_peek (U : Nat → Bytes) (s : State) (p : ProvRef) (n : Node)
       · rename_i idx hk
         simp [peek, hp, hk]
       · rename_i hk
-        simp [peek, List.getElem?_set, lt_length_of_getElem? hp, assoc_cons_self]
+        simp [peek, lt_length_of_getElem? hp, assoc_cons_self]
   | pass sc fb ih =>
     rcases pass_cases sc n with ⟨v, rfl⟩ | hno
     · simp [getLabel_pass_own, peek_pass_own]
@@ -373,7 +373,7 @@ theorem mapNode_peek (s : State) (m : Nat) (n : Node) (id : Ident)
       · rename_i s' id' hf
         simp [hm, hn, hf] at h
         have h4 : s'.mappers = s.mappers := (fresh_spec hf).2.2.2.1
-        simp [peekMap, List.getElem?_set, h4, lt_length_of_getElem? hm, assoc_cons_self, h]
+        simp [peekMap, h4, lt_length_of_getElem? hm, assoc_cons_self, h]
 
 theorem peekMap_ext {s s' : State} (hE : Ext s s') (m : Nat) (n : Node) (id : Ident)
     (h : peekMap s m n = some id) : peekMap s' m n = some id := by
